@@ -5,8 +5,9 @@ Import ListNotations.
 Require Import Nib.C05.Model Nib.C05.Spec.
 Open Scope Z_scope.
 
-(** accounts of a scenario: 0 signer, 1 fee collector, 2 R, 3 X, 4 B, 5 N, 6 Y, 7 B2, 8 C3, 9 D, 10 and 11 second and third signer *)
-Definition universe : list nat := [0; 1; 2; 3; 4; 5; 6; 7; 8; 9; 10; 11]%nat.
+(** accounts of a scenario: 0 signer, 1 fee collector, 2 R, 3 X, 4 B, 5 N, 6 Y, 7 B2, 8 C3, 9 D, 10 and 11 second and third signer,
+    12 factory F, 13 the address of F's next creation *)
+Definition universe : list nat := [0; 1; 2; 3; 4; 5; 6; 7; 8; 9; 10; 11; 12; 13]%nat.
 
 Record otx := {
   o_base_fee : Z; o_block_gas : Z;
